@@ -266,7 +266,7 @@ def det_strategy(*, timers: bool = False, hitl: bool = False):
             "send_mode": "mixed" if chain else draw(st.sampled_from(["send", "send", "mixed"])),
             "gather_post": draw(st.sampled_from([0, 0, 1])),
             "wait": draw(st.sampled_from([None, "plain", "req"])) if hitl else None,
-            "wait_timeout": draw(st.sampled_from([None, None, 4, 15])) if (hitl and timers) else None,
+            "wait_timeout": draw(st.sampled_from([None, None, 0, 4, 15])) if (hitl and timers) else None,  # 0 = the non-blocking form: TimeoutError unless the event is already there
             "ask_post": draw(st.sampled_from([0, 0, 3, 8])) if hitl else 0,
             # a workflow-level timeout far beyond every horizon: one more (long-lived, first-armed) entry in the loop's wake-up heap,
             # as every workflow with the default timeout has
